@@ -18,6 +18,18 @@ type State struct {
 	pc   []*Term
 	res  map[string]Value // named results of the contract at a return
 	ghost map[string]Value // ghost names bound by `let` clauses
+	borrowed []borrowRec   // memory handed out by callees that the function under proof must not write
+}
+
+// borrowRec: a slice returned by a callee whose contract marks it `borrowed`: it may alias storage of
+// the callee's side (for example the buffer behind an encoding.BinaryMarshaler), so at every return
+// its real memory [off, off+cap) must hold what it held when it was handed out.
+type borrowRec struct {
+	alloc    int
+	path     []string
+	arr      *Term
+	off, cap *Term
+	where    string
 }
 
 func newState() *State {
@@ -33,6 +45,7 @@ func (s *State) fork() *State {
 		n.mem[k] = v
 	}
 	n.pc = append([]*Term(nil), s.pc...)
+	n.borrowed = append([]borrowRec(nil), s.borrowed...)
 	if s.res != nil {
 		n.res = map[string]Value{}
 		for k, v := range s.res {
@@ -507,6 +520,17 @@ func mergeStates(base *State, outs []*State) (res *State) {
 			}
 			if !sameValue(v, w) {
 				acc.mem[k] = mergeVal(g, v, w)
+			}
+		}
+		for _, b := range o.borrowed {
+			dup := false
+			for _, c := range acc.borrowed {
+				if c.alloc == b.alloc && c.arr == b.arr {
+					dup = true
+				}
+			}
+			if !dup {
+				acc.borrowed = append(acc.borrowed, b)
 			}
 		}
 		if acc.ghost != nil {
